@@ -1,7 +1,7 @@
 #!/bin/sh
 # tools/thorough_all.sh [seed]: thorough tier of every claimed property, one after the other.
 cd "$(dirname "$0")/.." || exit 2
-[ -n "$VP_RUN_REPO" ] && export VERIF_REPO="$VP_RUN_REPO"
+[ -n "$VP_RUN_REPO" ] && export VERIF_REPO="$VP_RUN_REPO" GOCACHE="$PWD/.work/gocache"
 export VERIF_SEED=${1:-1}
 for id in C14 C11 C13 C12 C01 C10; do
   ./check thorough $id > /tmp/thorough.$$.out 2>&1; code=$?
